@@ -222,7 +222,23 @@ def write_files(d: Path, files):
         p.write_text(text)
 
 
-def do_compile(root: Path, out: Path, auto_pad, import_coredefs, cwd=None):
+def root_options(P, path: Path) -> dict:
+    """what the CLI does before it builds the Parser (pyrtma.compile.main): the `compiler_options` section of the file
+    being compiled - and of no other file - replaces the defaults; a flag of the command line can only switch an
+    option off.  -> {"IMPORT_COREDEFS", "VALIDATE_ALIGNMENT", "AUTO_PAD", "_raw": the section as written}"""
+    o = {"IMPORT_COREDEFS": True, "VALIDATE_ALIGNMENT": True, "AUTO_PAD": True}
+    p0 = quiet_parser(P)
+    with contextlib.redirect_stdout(io.StringIO()), contextlib.redirect_stderr(io.StringIO()):
+        with watchdog("parse-options", T_PARSE):
+            opts = p0.parse_compiler_options(path)
+    raw = {k: v.value for k, v in opts.items()}
+    for k, v in raw.items():
+        o[k] = v
+    o["_raw"] = raw
+    return o
+
+
+def do_compile(root: Path, out: Path, auto_pad, import_coredefs, cwd=None, validate_alignment=True):
     """the real pyrtma.compile.compile, every output, CLI order. returns (exc or None, {lang: text|None})"""
     from pyrtma.compile import compile as rtma_compile
     out.mkdir(parents=True, exist_ok=True)
@@ -237,7 +253,8 @@ def do_compile(root: Path, out: Path, auto_pad, import_coredefs, cwd=None):
             try:
                 with watchdog("compile", T_COMPILE):
                     rtma_compile([str(root)], str(out), "gen", python=True, javascript=True, matlab=True, c_lang=True,
-                                 combined=True, auto_pad=auto_pad, import_coredefs=import_coredefs)
+                                 combined=True, auto_pad=auto_pad, import_coredefs=import_coredefs,
+                                 validate_alignment=validate_alignment)
             finally:
                 logging.disable(logging.NOTSET)
     except Hang as e:
@@ -349,8 +366,30 @@ def run_case(case):
         src = d / "src"
         write_files(src, case["files"])
         root = src / case["root"]
-        # A. parse + ordered dump
-        parser = quiet_parser(Parser, auto_pad=ap, import_coredefs=core)
+        # A. parse + ordered dump.  The options are those of the CLI: the root file's compiler_options section over the
+        #    defaults; the case's auto_pad / import_coredefs act like the command line flags (can only switch off)
+        val = True
+        try:
+            ro = root_options(Parser, root)
+            ap = bool(ap and ro["AUTO_PAD"])
+            core = bool(core and ro["IMPORT_COREDEFS"])
+            val = bool(ro["VALIDATE_ALIGNMENT"])
+            res["root_options"] = ro["_raw"]
+        except FileNotFoundError:
+            pass                      # reported by the parse below
+        except Hang as e:
+            res["exc"] = "HANG"
+            res["hang"] = e.stage
+            res["is_parser_error"] = False
+            res["msg"] = "Parser.parse_compiler_options " + str(e)
+            return res
+        except BaseException as e:  # noqa
+            res["exc"] = type(e).__name__
+            res["is_parser_error"] = isinstance(e, PM.ParserError)
+            res["msg"] = "compiler_options: " + str(e)[:280]
+            return res
+        res["effective_options"] = dict(AUTO_PAD=ap, IMPORT_COREDEFS=core, VALIDATE_ALIGNMENT=val)
+        parser = quiet_parser(Parser, auto_pad=ap, import_coredefs=core, validate_alignment=val)
         try:
             with contextlib.redirect_stdout(io.StringIO()), contextlib.redirect_stderr(io.StringIO()):
                 with watchdog("parse", T_PARSE):
@@ -370,7 +409,7 @@ def run_case(case):
         res["model"] = dump_parser(parser)
         # B. the CLI's compile(), all outputs on one Parser, CLI order
         out = d / "out"
-        res["compile_exc"], res["outputs"] = do_compile(root, out, ap, core)
+        res["compile_exc"], res["outputs"] = do_compile(root, out, ap, core, validate_alignment=val)
         # C. each other back end on a fresh Parser
         if "separate" in ops:
             from pyrtma.compilers.c99 import CDefCompiler
@@ -383,7 +422,7 @@ def run_case(case):
                 o2 = d / ("sep_" + lang)
                 o2.mkdir()
                 try:
-                    p2 = quiet_parser(Parser, auto_pad=ap, import_coredefs=core)
+                    p2 = quiet_parser(Parser, auto_pad=ap, import_coredefs=core, validate_alignment=val)
                     with contextlib.redirect_stdout(io.StringIO()), contextlib.redirect_stderr(io.StringIO()):
                         with watchdog("separate:" + lang, T_COMPILE):
                             p2.parse(root)
@@ -419,7 +458,9 @@ def run_case(case):
                 for k, v in opts.items():
                     o[k] = v.value
                 rt["opts"] = o
-                p3 = quiet_parser(Parser, auto_pad=ap and o["AUTO_PAD"], import_coredefs=o["IMPORT_COREDEFS"],
+                rt["raw_opts"] = {k: v.value for k, v in opts.items()}      # the section as the combined file carries it
+                # the combined file is compiled the way any file is: ITS options over the defaults, same command line flags
+                p3 = quiet_parser(Parser, auto_pad=bool(case.get("auto_pad", True) and o["AUTO_PAD"]), import_coredefs=o["IMPORT_COREDEFS"],
                                   validate_alignment=o["VALIDATE_ALIGNMENT"])
                 with contextlib.redirect_stdout(io.StringIO()), contextlib.redirect_stderr(io.StringIO()):
                     with watchdog("reparse-combined", T_PARSE):
@@ -447,7 +488,7 @@ def run_case(case):
             write_files(src2, case["files"])
             cw = d / "some_cwd"
             cw.mkdir()
-            det["second_exc"], det["second"] = do_compile(src2 / case["root"], d / "o2" / "x", ap, core, cwd=str(cw))
+            det["second_exc"], det["second"] = do_compile(src2 / case["root"], d / "o2" / "x", ap, core, cwd=str(cw), validate_alignment=val)
             src3 = d / "s3"
             write_files(src3, case["files"])
             o3 = d / "o3"
@@ -456,7 +497,7 @@ def run_case(case):
                     "logging.disable(logging.CRITICAL)\n"
                     "with contextlib.redirect_stdout(io.StringIO()), contextlib.redirect_stderr(io.StringIO()):\n"
                     f"    c([{str(src3 / case['root'])!r}], {str(o3)!r}, 'gen', python=True, javascript=True, matlab=True,"
-                    f" c_lang=True, combined=True, auto_pad={ap!r}, import_coredefs={core!r})\n")
+                    f" c_lang=True, combined=True, auto_pad={ap!r}, import_coredefs={core!r}, validate_alignment={val!r})\n")
             env3 = dict(env)
             env3["PYTHONHASHSEED"] = str(case.get("hashseed", 12345))
             try:
